@@ -86,6 +86,72 @@ def replay(data):
     return any(len(v) != data['expected'] for seq in out for v in seq.values())
 
 
+XH_HEADER = '''
+import sweetpea as sp
+
+def _conc(v, lo, hi):
+    for c in range(lo, hi + 1):
+        if v == c:
+            return c
+    raise AssertionError('outside the precondition')
+
+def _ceil_to(n, size):
+    return -(-n // size) * size if size else n
+'''
+
+
+def _I(s):
+    return '\n'.join('    ' + l for l in s.strip('\n').splitlines())
+
+
+def xh_cases(tier):
+    """Symbolic MinimumTrials n, level weight w and window start; closed forms per the CrossBlock/Merge/Nest docs."""
+    from ..xhair import Case
+    out = []
+    # CrossBlock: T = max(n, preamble + size), size = (w + 1) * 2 with a weight-w level crossed with a 2-level factor
+    out.append(Case('cross_weight_mintrials', 'n: int, w: int',
+                    _I("n = _conc(n, 0, 12); w = _conc(w, 1, 3)\n"
+                       "A = sp.Factor('A', [sp.Level('a0', w), 'a1']); B = sp.Factor('B', ['b0', 'b1'])\n"
+                       "return sp.CrossBlock([A, B], [A, B], [sp.MinimumTrials(n)]).trials_per_sample()"),
+                    _I('return 0 <= n <= 12 and 1 <= w <= 3'), _I('return _ret == max(n, (w + 1) * 2)'),
+                    info={'shape': 'CrossBlock, weighted level, MinimumTrials(n)', 'closed_form': 'max(n, (w+1)*2)'}))
+    # window start st on a crossed width-2 window factor: preamble = st
+    out.append(Case('cross_window_start', 'n: int, st: int',
+                    _I("n = _conc(n, 0, 10); st = _conc(st, 0, 4)\n"
+                       "A = sp.Factor('A', ['a0', 'a1']); B = sp.Factor('B', ['b0', 'b1'])\n"
+                       "W = sp.Factor('W', [sp.DerivedLevel('w0', sp.Window(lambda a: a[0] == 'a0', [A], 2, 1, st)), sp.ElseLevel('w1')])\n"
+                       "return sp.CrossBlock([A, B, W], [B, W], [sp.MinimumTrials(n)]).trials_per_sample()"),
+                    _I('return 0 <= n <= 10 and 0 <= st <= 4'), _I('return _ret == max(n, st + 4)'),
+                    info={'shape': 'CrossBlock with a crossed Window(start st)', 'closed_form': 'max(n, st + 4)'}))
+    # Exclude with require_complete_crossing=False: one of three levels removed
+    out.append(Case('cross_exclude', 'n: int',
+                    _I("n = _conc(n, 0, 9)\nA = sp.Factor('A', ['a0', 'a1', 'a2']); B = sp.Factor('B', ['b0', 'b1'])\n"
+                       "return sp.CrossBlock([A, B], [A, B], [sp.Exclude((A, 'a2')), sp.MinimumTrials(n)], False).trials_per_sample()"),
+                    _I('return 0 <= n <= 9'), _I('return _ret == max(n, 4)'),
+                    info={'shape': 'CrossBlock, Exclude, rcc=False', 'closed_form': 'max(n, 4)'}))
+    # MultiCrossBlock: maximum over crossings
+    out.append(Case('multi_max', 'n: int, w: int',
+                    _I("n = _conc(n, 0, 9); w = _conc(w, 1, 3)\n"
+                       "A = sp.Factor('A', [sp.Level('a0', w), 'a1']); B = sp.Factor('B', ['b0', 'b1']); C = sp.Factor('C', ['c0', 'c1', 'c2'])\n"
+                       "return sp.MultiCrossBlock([A, B, C], [[A], [C]], [sp.MinimumTrials(n)], mode='repeat').trials_per_sample()"),
+                    _I('return 0 <= n <= 9 and 1 <= w <= 3'), _I('return _ret == max(n, w + 1, 3)'),
+                    info={'shape': 'MultiCrossBlock([[A],[C]]) repeat', 'closed_form': 'max(n, w+1, 3)'}))
+    # Repeat: MinimumTrials on the repetition
+    out.append(Case('repeat_mintrials', 'n: int',
+                    _I("n = _conc(n, 0, 12)\nA = sp.Factor('A', ['a0', 'a1']); B = sp.Factor('B', ['b0', 'b1'])\n"
+                       "return sp.Repeat(sp.CrossBlock([A, B], [A, B], []), [sp.MinimumTrials(n)]).trials_per_sample()"),
+                    _I('return 0 <= n <= 12'), _I('return _ret == max(n, 4)'),
+                    info={'shape': 'Repeat(CrossBlock 2x2, MinimumTrials(n))', 'closed_form': 'max(n, 4)'}))
+    # Nest: product; MinimumTrials on the outer block counts outer trials
+    out.append(Case('nest_product', 'n: int, w: int',
+                    _I("n = _conc(n, 0, 6); w = _conc(w, 1, 3)\n"
+                       "A = sp.Factor('A', ['a0', 'a1']); B = sp.Factor('B', [sp.Level('b0', w), 'b1'])\n"
+                       "return sp.Nest(sp.CrossBlock([A], [A], [sp.MinimumTrials(n)]), sp.CrossBlock([B], [B], [])).trials_per_sample()"),
+                    _I('return 0 <= n <= 6 and 1 <= w <= 3'), _I('return _ret == max(n, 2) * (w + 1)'),
+                    info={'shape': 'Nest(outer MinimumTrials(n), inner weighted)', 'closed_form': 'max(n,2)*(w+1)'}))
+    return out
+
+
 def run(ctx):
     ctx.functions += ['cross_block.trials_per_sample', 'cross_block._trials_per_sample_for_crossing',
                       'cross_block.__trials_required_for_crossing', 'cross_block.crossing_size / __count_exclusions',
@@ -101,10 +167,6 @@ def run(ctx):
     ds = designs(ctx.tier, ctx.seed) + c25.nest_designs(ctx.tier, ctx.seed) + c24.extra_designs(ctx.tier, ctx.seed)
     res = pmap(ctx, trial_count, ds)
     ctx.extra['design_outcomes'] = {str(k): res.count(k) for k in set(res)}
-    try:
-        from ..xh import c16_harness
-    except ImportError:
-        c16_harness = None
-    if c16_harness is not None:
-        from ..xhair import run_harness_module
-        run_harness_module(ctx, c16_harness)
+    from ..xhair import run_cases
+    run_cases(ctx, XH_HEADER, xh_cases(ctx.tier), timeout=600 if ctx.tier == 'thorough' else 120, path_timeout=40,
+              module_tag='c16', keyfn=lambda c, kw: f'symbolic:{c.name}')
